@@ -5,7 +5,7 @@ What is extracted (-> lean/GeckoModel/Generated/ThreadedFacts.lean), re-done on 
     throttle test (computed with Python's own float arithmetic for `1.0 / rate` and the extracted comparison operator), _SOCKET_TIMEOUT;
   * control-flow facts the hand model mirrors: which end of the send queue is popped, the order of the five calls of `_thread_func`,
     that the dispatch loop breaks at the first `can_handle`, that `handle` then `handled` run inside one try whose handler swallows,
-    that `handler.loop` in `_thread_func` is NOT guarded, strictness of the timeout comparison, `timeout == 0` never times out,
+    whether `handler.loop` / `_loop_func` in `_thread_func` are guarded by a swallowing try, whether queue_send records the destination, strictness of the timeout comparison, `timeout == 0` never times out,
     the statement order of `retry` / `loop` / `handled`, the clean-up filter, GeckoSpa._loop_func.
 The statement-level facts are emitted only when the function body (docstrings and logging calls stripped) has the audited shape;
 any other shape is Untranslatable: the Lean obligations then do not build and the check falls back to the search on the real code.
@@ -115,7 +115,7 @@ with GeckoUdpSocket._BusyLock(self):
     "GeckoUdpSocket._thread_func": """while self.isopen:
 <PHASES>""",
     "GeckoUdpSocket._loop_func": "pass",
-    "GeckoUdpSocket.queue_send": """with self._lock:
+    "GeckoUdpSocket.queue_send": """<RECORD>with self._lock:
     self._send_handlers.append((protocol_handler, destination))""",
     "GeckoUdpSocket.add_receive_handler": """with self._lock:
     self._receive_handlers.append(protocol_handler)""",
@@ -199,13 +199,20 @@ def gen_threaded_facts():
     fn, text = _norm(sock, "GeckoUdpSocket._thread_func")
     if not (len(fn.body) == 1 and isinstance(fn.body[0], ast.While) and ast.unparse(fn.body[0].test) == "self.isopen" and not fn.body[0].orelse):
         raise Untranslatable("_thread_func is not `while self.isopen:`")
-    phases, loop_guarded = [], False
+    phases, loop_guarded, loopfunc_guarded = [], False, False
+    swallow = "try:\n    {}\nexcept Exception:\n    pass"
     for st in fn.body[0].body:
         src = ast.unparse(st)
         if src in ("self._process_send_requests()", "self._process_received_data()", "self._cleanup_handlers()", "self._loop_func()"):
             phases.append(src[5:-2])
+        elif src == swallow.format("self._loop_func()"):
+            phases.append("_loop_func")
+            loopfunc_guarded = True
         elif src == "for handler in self._receive_handlers:\n    handler.loop(self)":
             phases.append("handler.loop")
+        elif src == "for handler in self._receive_handlers:\n" + "\n".join("    " + ln for ln in swallow.format("handler.loop(self)").splitlines()):
+            phases.append("handler.loop")
+            loop_guarded = True          # one try per handler: the next handler is still looped
         else:
             raise Untranslatable(f"_thread_func: unexpected statement {src.splitlines()[0]!r}")
     # ---- timeout comparison
@@ -217,8 +224,16 @@ def gen_threaded_facts():
     if text != SHAPES["GeckoUdpProtocolHandler.has_timedout"].replace("<TCMP>", _CMP[tcmp]):
         raise Untranslatable("GeckoUdpProtocolHandler.has_timedout: body is not the audited shape")
     # ---- everything else: exact audited shape
+    _, text = _norm(sock, "GeckoUdpSocket.queue_send")
+    rec = "if protocol_handler.last_destination is None:\n    protocol_handler.last_destination = destination\n"
+    if text == SHAPES["GeckoUdpSocket.queue_send"].replace("<RECORD>", rec):
+        records = True
+    elif text == SHAPES["GeckoUdpSocket.queue_send"].replace("<RECORD>", ""):
+        records = False
+    else:
+        raise Untranslatable("GeckoUdpSocket.queue_send: body is not an audited shape")
     for qual, tree in (("GeckoUdpSocket.dispatch_recevied_data", sock), ("GeckoUdpSocket._process_received_data", sock),
-                       ("GeckoUdpSocket._cleanup_handlers", sock), ("GeckoUdpSocket._loop_func", sock), ("GeckoUdpSocket.queue_send", sock),
+                       ("GeckoUdpSocket._cleanup_handlers", sock), ("GeckoUdpSocket._loop_func", sock),
                        ("GeckoUdpSocket.add_receive_handler", sock), ("GeckoUdpProtocolHandler.handled", hand), ("GeckoUdpProtocolHandler.age", hand),
                        ("GeckoUdpProtocolHandler._reset_timeout", hand), ("GeckoUdpProtocolHandler.retry", hand), ("GeckoUdpProtocolHandler.loop", hand),
                        ("GeckoUdpProtocolHandler._default_retry_failed_handler", hand), ("GeckoSpa._loop_func", spa)):
@@ -247,7 +262,10 @@ def gen_threaded_facts():
            f"/-- the statements of one `_thread_func` iteration, in source order; codes: 0 _process_send_requests, 1 _process_received_data,\n"
            f"2 `for handler in self._receive_handlers: handler.loop(self)`, 3 _cleanup_handlers, 4 _loop_func.  `engineIter` runs the coded phases in THIS order -/\n"
            f"def threadPhases : List String := {_lstrs(phases)}\ndef threadPhaseCodes : List Nat := [{', '.join(str(CODES[p]) for p in phases)}]\n",
-           "/-- `for handler in self._receive_handlers: handler.loop(self)` is not inside a try block -/\ndef loopPhaseGuarded : Bool := false\n",
+           "/-- in `_thread_func`: is `handler.loop(self)` wrapped, per handler, in `try ... except Exception: log` ? is `self._loop_func()` ? -/\n"
+           f"def loopPhaseGuarded : Bool := {'true' if loop_guarded else 'false'}\ndef loopFuncGuarded : Bool := {'true' if loopfunc_guarded else 'false'}\n",
+           "/-- does `queue_send` start with `if protocol_handler.last_destination is None: protocol_handler.last_destination = destination` ? -/\n"
+           f"def queueSendRecordsDest : Bool := {'true' if records else 'false'}\n",
            f"/-- has_timedout: `self.age {_CMP[tcmp]} self._timeout_in_seconds if self._timeout_in_seconds > 0 else False` -/\n"
            f"def timeoutStrict : Bool := {'true' if tcmp is ast.Gt else 'false'}\ndef timeoutZeroNever : Bool := true\n",
            "/-- audited statement shapes (exact match after stripping docstrings and logging): dispatch breaks at the first can_handle; handle then handled\n"
